@@ -120,6 +120,11 @@ where
     Ok(String::new())
 }
 
+fn stub_path_join<P: AsRef<std::path::Path>>(_this: &std::path::Path, _p: P) -> std::path::PathBuf
+{
+    std::path::PathBuf::new()
+}
+
 fn any_config() -> Config
 {
     Config {
@@ -144,8 +149,10 @@ fn any_config() -> Config
 #[kani::stub(std::fs::remove_dir_all, stub_remove_dir_all)]
 #[kani::stub(std::fs::rename, stub_rename)]
 #[kani::stub(std::fs::write, stub_write)]
+#[kani::stub(std::path::Path::join, stub_path_join)]
 fn u_ctx_read()
 {
+    log::set_max_level(log::LevelFilter::Off);
     let config = any_config();
     unsafe {
         READ_ONLY = true;
@@ -183,13 +190,15 @@ fn u_ctx_read()
 #[kani::stub(std::fs::write, stub_write)]
 #[kani::stub(std::fs::remove_file, stub_remove_file)]
 #[kani::stub(std::fs::rename, stub_rename)]
+#[kani::stub(std::path::Path::join, stub_path_join)]
 fn u_ctx_write()
 {
+    log::set_max_level(log::LevelFilter::Off);
     let ctx = Context {
         config: any_config(),
-        cached_next_reference_id: None,
-        check_mode: false,
-        stop_commanded: std::sync::Arc::new(std::sync::atomic::AtomicBool::new(false)),
+        cached_next_reference_id: if kani::any() { Some(kani::any()) } else { None },
+        check_mode: kani::any(),
+        stop_commanded: std::sync::Arc::new(std::sync::atomic::AtomicBool::new(kani::any())),
     };
     let id: u32 = kani::any();
     ctx.cache_next_reference_id(id, "d");
@@ -201,7 +210,7 @@ fn u_ctx_write()
         }
         else
         {
-            assert!(MUTATIONS == 1 && WRITTEN == id, "C02/C16: the lock file records exactly the id it is given");
+            assert!(MUTATIONS == 1 && WRITTEN == id, "C02/C16/C18: the lock file records exactly the id it is given, whatever the stop flag says");
         }
     }
     std::mem::forget(ctx);
